@@ -1,55 +1,699 @@
 package main
 
+// C19: correspondence driver. (1) the REAL engine (core/engine, plugin factories, real providers) runs every gun kind
+// against scripted misbehaving targets, with every kind of postprocessor configured; observation = class of
+// Engine.Run's result + the samples the aggregator received. (2) direct differential of the response-processing
+// functions (var/header modifiers, assert/response http + grpc, var/jsonpath, var/xpath) through their exported
+// constructors / Process methods against the Checked model (lean/Pandora/Model/C19.lean).
+
 import (
+	"bytes"
 	"encoding/hex"
 	"fmt"
+	"math/rand"
+	"net/http"
+	"sort"
+	"strconv"
+	"strings"
 	"time"
 
+	"verifharness/drv"
 	"verifharness/shot"
+
+	"github.com/golang/protobuf/proto"
+	grpcpp "github.com/yandex/pandora/components/providers/scenario/grpc/postprocessor"
+	"github.com/yandex/pandora/components/providers/scenario/http/postprocessor"
+	scnimport "github.com/yandex/pandora/components/providers/scenario/import"
+	"github.com/yandex/pandora/examples/grpc/server"
 )
 
+func hx(s string) string { return hex.EncodeToString([]byte(s)) }
+func unhx(s string) string {
+	b, err := hex.DecodeString(s)
+	if err != nil {
+		panic("bad hex " + s)
+	}
+	return string(b)
+}
+func atoi(s string, d int) int {
+	if s == "" {
+		return d
+	}
+	n, err := strconv.Atoi(s)
+	if err != nil {
+		panic("bad int " + s)
+	}
+	return n
+}
+
+// ---------------------------------------------------------------- modifier text
+
+// modText renders the structural modifier list (lo | up | s1:a | s2:a:b | rp:hexold:hexnew, '/' separated) as the
+// pipe syntax of var/header.
+func modText(mods string) string {
+	var parts []string
+	for _, m := range strings.Split(mods, "/") {
+		f := strings.Split(m, ":")
+		switch f[0] {
+		case "":
+		case "lo":
+			parts = append(parts, "lower")
+		case "up":
+			parts = append(parts, "upper")
+		case "s1":
+			parts = append(parts, "substr("+f[1]+")")
+		case "s2":
+			parts = append(parts, "substr("+f[1]+", "+f[2]+")")
+		case "rp":
+			parts = append(parts, "replace("+unhx(f[1])+","+unhx(f[2])+")")
+		case "bad":
+			parts = append(parts, "nosuchmodifier(1)")
+		default:
+			panic("bad modifier " + m)
+		}
+	}
+	return strings.Join(parts, "|")
+}
+
+func runMod(m map[string]string) string {
+	chain := "X-Val"
+	if t := modText(m["mods"]); t != "" {
+		chain += "|" + t
+	}
+	p := scnimport.NewVarHeaderPostprocessor(postprocessor.Config{Mapping: map[string]string{"v": chain}})
+	resp := &http.Response{Header: http.Header{}}
+	resp.Header.Set("X-Val", unhx(m["val"]))
+	out, err := p.Process(resp, bytes.NewReader(nil))
+	if err != nil {
+		return "err"
+	}
+	v, ok := out["v"]
+	if !ok {
+		return "unset"
+	}
+	return "ok:" + hx(v.(string))
+}
+
+// ---------------------------------------------------------------- assert/response (http, grpc), jsonpath, xpath
+
+func splitNonEmpty(s, sep string) []string {
+	if s == "" {
+		return nil
+	}
+	return strings.Split(s, sep)
+}
+
+func runAssert(m map[string]string) string {
+	a := postprocessor.AssertResponse{StatusCode: atoi(m["cfgst"], 0), Headers: map[string]string{}}
+	for _, p := range splitNonEmpty(m["pats"], ",") {
+		a.Body = append(a.Body, unhx(p))
+	}
+	for _, c := range splitNonEmpty(m["chk"], ",") {
+		kv := strings.SplitN(c, ":", 2)
+		a.Headers[kv[0]] = unhx(kv[1])
+	}
+	if sz := m["size"]; sz != "" && sz != "-" {
+		kv := strings.SplitN(sz, ":", 2)
+		a.Size = &postprocessor.AssertSize{Op: kv[0], Val: atoi(kv[1], 0)}
+	}
+	pp, err := scnimport.NewAssertResponsePostprocessor(a)
+	if err != nil {
+		return "cfgerr"
+	}
+	resp := &http.Response{StatusCode: atoi(m["st"], 200), Header: http.Header{}}
+	for _, h := range splitNonEmpty(m["hdrs"], ",") {
+		kv := strings.SplitN(h, ":", 2)
+		resp.Header.Set(kv[0], unhx(kv[1]))
+	}
+	_, err = pp.Process(resp, bytes.NewReader([]byte(unhx(m["body"]))))
+	if err != nil {
+		return "err"
+	}
+	return "ok"
+}
+
+func runGAssert(m map[string]string) string {
+	a := grpcpp.AssertResponse{StatusCode: atoi(m["cfgst"], 0)}
+	for _, p := range splitNonEmpty(m["pats"], ",") {
+		a.Payload = append(a.Payload, unhx(p))
+	}
+	var out proto.Message
+	if m["out"] != "nil" {
+		out = &server.HelloResponse{Hello: unhx(m["out"])}
+	}
+	_, err := a.Process(out, atoi(m["code"], 200))
+	if err != nil {
+		return "err"
+	}
+	return "ok"
+}
+
+var xpathExprs = map[string]string{
+	"divdata": "//div[@class='data']", "href": "//a/@href", "title": "//title", "deep": "/html/body//div", "none": "//nosuchtag",
+	"count": "count(//a)", "string": "string(//title)", "arith": "1+1", "bool": "boolean(//a)",
+	"bad": "//[", "bad2": "///",
+}
+
+var jsonPaths = map[string]string{"result": "$.result", "item0": "$.items[0]", "missing": "$.missing", "ab": "$.a.b", "items": "$.items"}
+
+func bodyOf(class string) []byte {
+	if strings.HasPrefix(class, "raw:") {
+		return []byte(unhx(class[4:]))
+	}
+	sc, err := shot.ParseScript("b" + class)
+	if err != nil {
+		panic(err)
+	}
+	return sc.Body
+}
+
+func runXpath(m map[string]string) string {
+	p := scnimport.NewVarXpathPostprocessor(postprocessor.Config{Mapping: map[string]string{"v": xpathExprs[m["expr"]]}})
+	_, err := p.Process(&http.Response{}, bytes.NewReader(bodyOf(m["body"])))
+	if err != nil {
+		return "err"
+	}
+	return "ok"
+}
+
+func runJsonpath(m map[string]string) string {
+	p := scnimport.NewVarJsonpathPostprocessor(postprocessor.Config{Mapping: map[string]string{"v": jsonPaths[m["path"]]}})
+	_, err := p.Process(&http.Response{}, bytes.NewReader(bodyOf(m["body"])))
+	if err != nil {
+		return "err"
+	}
+	return "ok"
+}
+
+// ---------------------------------------------------------------- engine runs
+
+func ppHCL(tok string) string {
+	f := strings.Split(tok, "~")
+	switch f[0] {
+	case "H": // H~<hdr>~<mods>
+		chain := f[1]
+		if len(f) > 2 {
+			if t := modText(f[2]); t != "" {
+				chain += "|" + t
+			}
+		}
+		return fmt.Sprintf("postprocessor \"var/header\" {\n    mapping = {\n      v = %s\n    }\n  }", shot.HCLString(chain))
+	case "A": // A~<status>~<hexbodypat|->~<hdr:hexpat|->~<op:val|->
+		var b strings.Builder
+		b.WriteString("postprocessor \"assert/response\" {\n")
+		if f[1] != "0" {
+			fmt.Fprintf(&b, "    status_code = %s\n", f[1])
+		}
+		if f[2] != "-" {
+			fmt.Fprintf(&b, "    body = [%s]\n", shot.HCLString(unhx(f[2])))
+		}
+		if f[3] != "-" {
+			kv := strings.SplitN(f[3], ":", 2)
+			fmt.Fprintf(&b, "    headers = {\n      %s = %s\n    }\n", shot.HCLString(kv[0]), shot.HCLString(unhx(kv[1])))
+		}
+		if f[4] != "-" {
+			kv := strings.SplitN(f[4], ":", 2)
+			op := map[string]string{"eq": "=", "lt": "<", "gt": ">"}[kv[0]]
+			fmt.Fprintf(&b, "    size {\n      val = %s\n      op = %s\n    }\n", kv[1], shot.HCLString(op))
+		}
+		b.WriteString("  }")
+		return b.String()
+	case "J":
+		return fmt.Sprintf("postprocessor \"var/jsonpath\" {\n    mapping = {\n      v = %s\n    }\n  }", shot.HCLString(jsonPaths[f[1]]))
+	case "X":
+		return fmt.Sprintf("postprocessor \"var/xpath\" {\n    mapping = {\n      v = %s\n    }\n  }", shot.HCLString(xpathExprs[f[1]]))
+	}
+	panic("bad pp " + tok)
+}
+
+func fmtRun(res shot.Result) string {
+	cnt := map[string]int{}
+	for _, s := range res.Samples {
+		nc := "0"
+		if s.Net != 0 {
+			nc = "nz"
+		}
+		cnt[fmt.Sprintf("%s:%d:%s", hx(s.Tags), s.Proto, nc)]++
+	}
+	keys := make([]string, 0, len(cnt))
+	for k := range cnt {
+		keys = append(keys, k)
+	}
+	sort.Strings(keys)
+	var parts []string
+	for _, k := range keys {
+		parts = append(parts, fmt.Sprintf("%s*%d", k, cnt[k]))
+	}
+	return fmt.Sprintf("res=%s n=%d s=%s", res.Class, len(res.Samples), strings.Join(parts, ","))
+}
+
+func runRun(m map[string]string) string {
+	inst := atoi(m["inst"], 1)
+	gun := m["gun"]
+	switch gun {
+	case "http", "connect", "http2":
+		var reqs []shot.HTTPReq
+		for i, r := range strings.Split(m["reqs"], ",") {
+			f := strings.SplitN(r, ":", 2)
+			reqs = append(reqs, shot.HTTPReq{Tag: fmt.Sprintf("r%d", i), URI: fmt.Sprintf("/p/%d", i), Script: f[0]})
+		}
+		g := shot.HTTPGunConf{Type: gun, RHTimeoutMs: atoi(m["rht"], 0)}
+		var stop func()
+		switch m["tgt"] {
+		case "dead":
+			g.Target = shot.DeadAddr()
+		case "tls2":
+			g.Target, stop = shot.NewTLSTarget(true)
+		case "tls1":
+			g.Target, stop = shot.NewTLSTarget(false)
+		default:
+			t := shot.NewTarget()
+			g.Target, stop = t.Addr, t.Close
+		}
+		if stop != nil {
+			defer stop()
+		}
+		passes := atoi(m["m"], 1)
+		f := shot.TempFile(".uri", shot.URIAmmo(reqs))
+		gy := shot.HTTPPool(g, reqs, inst)
+		_ = gy
+		conf := shot.PoolYAML("uri", f, fmt.Sprintf(", passes: %d", passes), gunYAML(g), passes*len(reqs)+inst, inst)
+		return fmtRun(shot.RunEngine(conf, 60*time.Second))
+	case "http/scenario":
+		var steps []shot.ScnStep
+		for _, r := range strings.Split(m["steps"], ";") {
+			f := strings.Split(r, ",")
+			if len(f) < 4 {
+				panic("bad step " + r)
+			}
+			st := shot.ScnStep{Name: f[0], URI: "/scn/" + f[0], Script: f[1]}
+			for _, p := range splitNonEmpty(f[3], "+") {
+				if p == "-" {
+					continue
+				}
+				if p == "tpl" {
+					st.URI += "{{"
+					continue
+				}
+				st.PP = append(st.PP, ppHCL(p))
+			}
+			steps = append(steps, st)
+		}
+		g := shot.HTTPGunConf{RHTimeoutMs: atoi(m["rht"], 0)}
+		var stop func()
+		if m["tgt"] == "dead" {
+			g.Target = shot.DeadAddr()
+		} else {
+			t := shot.NewTarget()
+			g.Target, stop = t.Addr, t.Close
+			defer stop()
+		}
+		conf := shot.ScenarioPool(g, "scn", steps, atoi(m["n"], 1), inst)
+		return fmtRun(shot.RunEngine(conf, 60*time.Second))
+	case "grpc":
+		var reqs []shot.GrpcReq
+		for i, r := range strings.Split(m["reqs"], ",") {
+			f := strings.SplitN(r, ":", 2)
+			q := shot.GrpcReq{Tag: fmt.Sprintf("r%d", i), Call: "target.TargetService.Hello", Payload: map[string]any{"name": "verif"}}
+			switch f[0] {
+			case "ok":
+			case "code":
+				q.Metadata = map[string]string{"x-code": f[1]}
+			case "hang":
+				q.Metadata = map[string]string{"x-hang": "1"}
+			case "nomethod":
+				q.Call = "target.TargetService.NoSuchMethod"
+			case "badpayload":
+				q.Payload = map[string]any{"no_such_field": 1}
+			default:
+				panic("bad grpc kind " + f[0])
+			}
+			reqs = append(reqs, q)
+		}
+		addr, stop := shot.NewGrpcTargetStopAfter(atoi(m["stopafter"], 0))
+		defer stop()
+		passes := atoi(m["m"], 1)
+		f := shot.TempFile(".json", shot.GrpcAmmo(reqs))
+		gy := fmt.Sprintf(`{type: grpc, target: "%s"`, addr)
+		if to := atoi(m["to"], 0); to > 0 {
+			gy += fmt.Sprintf(", timeout: %dms", to)
+		}
+		gy += "}"
+		conf := shot.PoolYAML("grpc/json", f, fmt.Sprintf(", passes: %d", passes), gy, passes*len(reqs)+inst, inst)
+		return fmtRun(shot.RunEngine(conf, 60*time.Second))
+	case "grpc/scenario":
+		var calls []shot.GrpcCall
+		for i, r := range strings.Split(m["calls"], ";") {
+			f := strings.Split(r, ",")
+			if len(f) < 4 {
+				panic("bad call " + r)
+			}
+			c := shot.GrpcCall{Name: fmt.Sprintf("c%d", i), Tag: f[0], Call: "target.TargetService.Hello", Payload: `{"name": "verif"}`}
+			switch f[1] {
+			case "ok":
+			case "code":
+				c.Metadata = map[string]string{"x-code": f[2]}
+			case "hang":
+				c.Metadata = map[string]string{"x-hang": "1"}
+			case "nomethod":
+				c.Call = "target.TargetService.NoSuchMethod"
+			case "badpayload":
+				c.Payload = `{"no_such_field": 1}`
+			}
+			if strings.HasPrefix(f[3], "as") {
+				g := strings.SplitN(f[3][2:], ":", 2)
+				pp := fmt.Sprintf("postprocessor \"assert/response\" {\n    status_code = %s\n", g[0])
+				if len(g) > 1 {
+					pp += fmt.Sprintf("    payload = [%s]\n", shot.HCLString(unhx(g[1])))
+				}
+				c.PP = []string{pp + "  }"}
+			}
+			calls = append(calls, c)
+		}
+		addr, stop := shot.NewGrpcTarget()
+		defer stop()
+		conf := shot.GrpcScenarioPool(addr, atoi(m["to"], 0), "gscn", calls, atoi(m["n"], 1), inst)
+		return fmtRun(shot.RunEngine(conf, 60*time.Second))
+	}
+	return "bad-gun"
+}
+
+func gunYAML(g shot.HTTPGunConf) string {
+	s := fmt.Sprintf(`{type: "%s", target: "%s", dial: {timeout: 2s}`, g.Type, g.Target)
+	if g.RHTimeoutMs > 0 {
+		s += fmt.Sprintf(`, response-header-timeout: %dms`, g.RHTimeoutMs)
+	}
+	return s + "}"
+}
+
+func run(input string) string {
+	m := drv.KV(input)
+	switch m["k"] {
+	case "mod":
+		return runMod(m)
+	case "assert":
+		return runAssert(m)
+	case "gassert":
+		return runGAssert(m)
+	case "xpath":
+		return runXpath(m)
+	case "jsonpath":
+		return runJsonpath(m)
+	case "run":
+		return runRun(m)
+	}
+	return "bad-input"
+}
+
+// ---------------------------------------------------------------- generation
+
+func truthOf(script string) string {
+	sc, err := shot.ParseScript(script)
+	if err != nil {
+		panic(err)
+	}
+	return sc.Truth()
+}
+
+func randASCII(r *rand.Rand, n int) string {
+	const al = "abcdefXYZ0123456789 =-_/.:;Bearer"
+	b := make([]byte, n)
+	for i := range b {
+		b[i] = al[r.Intn(len(al))]
+	}
+	return string(b)
+}
+
+func randInt(r *rand.Rand) int {
+	switch r.Intn(8) {
+	case 0:
+		return 0
+	case 1:
+		return -1 - r.Intn(5)
+	case 2:
+		return -(10 + r.Intn(100))
+	case 3:
+		return 30 + r.Intn(1000)
+	case 4:
+		return []int{1 << 31, -(1 << 31), 1<<62 + 12345, -(1 << 62), 9223372036854775807, -9223372036854775808}[r.Intn(6)]
+	default:
+		return r.Intn(12)
+	}
+}
+
+func randMods(r *rand.Rand) string {
+	n := 1 + r.Intn(3)
+	var ms []string
+	for i := 0; i < n; i++ {
+		switch r.Intn(6) {
+		case 0:
+			ms = append(ms, "lo")
+		case 1:
+			ms = append(ms, "up")
+		case 2:
+			arg := func() string {
+				const al = "abXY=-/ea"
+				k := r.Intn(3)
+				b := make([]byte, k)
+				for i := range b {
+					b[i] = al[r.Intn(len(al))]
+				}
+				return string(b)
+			}
+			ms = append(ms, "rp:"+hx(arg())+":"+hx(arg()))
+		case 3:
+			ms = append(ms, fmt.Sprintf("s1:%d", randInt(r)))
+		default:
+			ms = append(ms, fmt.Sprintf("s2:%d:%d", randInt(r), randInt(r)))
+		}
+	}
+	return strings.Join(ms, "/")
+}
+
+var bodyClasses = []string{"json", "badjson", "html", "badhtml", "empty", "x7", "x4096"}
+
+func randPP(r *rand.Rand) string {
+	switch r.Intn(9) {
+	case 0, 1, 2:
+		hdr := []string{"X-Val", "X-Short", "X-Missing", "Content-Type"}[r.Intn(4)]
+		return "H~" + hdr + "~" + randMods(r)
+	case 3:
+		return fmt.Sprintf("A~%d~-~-~-", []int{0, 200, 404, 500}[r.Intn(4)])
+	case 4:
+		return "A~0~" + hx([]string{"result", "token", "zzz", "<div"}[r.Intn(4)]) + "~-~" + []string{"-", "gt:10", "lt:10", "eq:0", "gt:100000"}[r.Intn(5)]
+	case 5:
+		return "A~0~-~" + []string{"Content-Type:" + hx("json"), "X-Val:" + hx("ab"), "X-Missing:" + hx("q")}[r.Intn(3)] + "~" + []string{"-", "eq:0", "gt:1"}[r.Intn(3)]
+	case 6:
+		return "J~" + []string{"result", "item0", "missing", "ab", "items"}[r.Intn(5)]
+	case 7:
+		return "X~" + []string{"divdata", "href", "title", "deep", "none", "bad"}[r.Intn(6)]
+	default:
+		return "X~" + []string{"count", "string", "arith", "bool"}[r.Intn(4)]
+	}
+}
+
+func randScript(r *rand.Rand) string {
+	switch r.Intn(12) {
+	case 0:
+		return []string{"actclose", "actreset", "actgarbage", "actbadhdr"}[r.Intn(4)]
+	case 1:
+		return fmt.Sprintf("s%d.b%s.c%d", 200, "x10", 100+r.Intn(1000))
+	case 2:
+		return "s200.bjson.actmidclose"
+	case 3:
+		return fmt.Sprintf("s%d", []int{204, 304, 100, 102, 199}[r.Intn(5)])
+	default:
+		st := []int{200, 200, 200, 201, 301, 400, 404, 418, 500, 503, 599, 299, 600, 999}[r.Intn(14)]
+		s := fmt.Sprintf("s%d.b%s", st, bodyClasses[r.Intn(len(bodyClasses))])
+		if r.Intn(2) == 0 {
+			s += ".hX-Val~" + hx(randASCII(r, r.Intn(12)))
+		}
+		if r.Intn(3) == 0 {
+			s += ".hX-Short~" + hx(randASCII(r, r.Intn(3)))
+		}
+		if r.Intn(3) == 0 {
+			s += ".hContent-Type~" + hx([]string{"application/json", "text/html", "x"}[r.Intn(3)])
+		}
+		return s
+	}
+}
+
+func gen(r *rand.Rand, tier string) []string {
+	thorough := tier == "thorough"
+	var out []string
+	mul := func(q, t int) int {
+		if thorough {
+			return t
+		}
+		return q
+	}
+	// 1. direct differential of the modifiers
+	for i := 0; i < mul(1500, 40000); i++ {
+		out = append(out, fmt.Sprintf("k=mod mods=%s val=%s", randMods(r), hx(randASCII(r, r.Intn(14)))))
+	}
+	// the documented example
+	out = append(out, "k=mod mods=lo/rp:"+hx("=")+":"+hx("")+"/s1:6 val="+hx("Basic Ym9zY236Ym9zY28="))
+	// non-ASCII / binary header values (the model predicts only chains without case mapping)
+	for i := 0; i < mul(100, 2000); i++ {
+		b := make([]byte, r.Intn(10))
+		r.Read(b)
+		for j := range b {
+			if b[j] == 0 || b[j] == '\n' || b[j] == '\r' {
+				b[j] = 0xC3
+			}
+		}
+		out = append(out, fmt.Sprintf("k=mod mods=%s val=%s bin=1", randMods(r), hex.EncodeToString(b)))
+	}
+	out = append(out, "k=mod mods=bad val="+hx("abc"))
+	// 2. assert/response http
+	for i := 0; i < mul(300, 6000); i++ {
+		body := []string{shot.JSONBody, shot.BadJSONBody, "", "xxxxxxxxxxxx", shot.HTMLBody}[r.Intn(5)]
+		var pats []string
+		for j := r.Intn(3); j > 0; j-- {
+			pats = append(pats, hx([]string{"result", "token", "zzz", "x", ""}[r.Intn(5)]))
+		}
+		hdrs := "X-Val:" + hx(randASCII(r, r.Intn(6)))
+		chk := ""
+		if r.Intn(2) == 0 {
+			chk = []string{"X-Val", "X-Missing"}[r.Intn(2)] + ":" + hx(randASCII(r, r.Intn(2)))
+		}
+		size := "-"
+		if r.Intn(2) == 0 {
+			size = []string{"eq", "lt", "gt"}[r.Intn(3)] + ":" + strconv.Itoa([]int{0, 1, 12, len(body), 100000}[r.Intn(5)])
+		}
+		out = append(out, fmt.Sprintf("k=assert st=%d cfgst=%d body=%s pats=%s hdrs=%s chk=%s size=%s",
+			[]int{200, 404, 500, 0, 999}[r.Intn(5)], []int{0, 200, 404}[r.Intn(3)], hx(body), strings.Join(pats, ","), hdrs, chk, size))
+	}
+	// 3. assert/response grpc
+	for i := 0; i < mul(150, 3000); i++ {
+		outv := "nil"
+		if r.Intn(3) != 0 {
+			outv = hx([]string{"Hello verif!", "", "token"}[r.Intn(3)])
+		}
+		var pats []string
+		for j := r.Intn(3); j > 0; j-- {
+			pats = append(pats, hx([]string{"Hello", "token", "zzz", ""}[r.Intn(4)]))
+		}
+		out = append(out, fmt.Sprintf("k=gassert code=%d cfgst=%d out=%s pats=%s", []int{200, 404, 500, 0, 503}[r.Intn(5)], []int{0, 200, 404}[r.Intn(3)], outv, strings.Join(pats, ",")))
+	}
+	// 4. xpath / jsonpath glue on well-formed, malformed and random bodies
+	exprKind := map[string]string{"divdata": "nodeSet", "href": "nodeSet", "title": "nodeSet", "deep": "nodeSet", "none": "nodeSet",
+		"count": "scalar", "string": "scalar", "arith": "scalar", "bool": "scalar", "bad": "invalid", "bad2": "invalid"}
+	exprs := make([]string, 0, len(exprKind))
+	for k := range exprKind {
+		exprs = append(exprs, k)
+	}
+	sort.Strings(exprs)
+	randBody := func() string {
+		if r.Intn(3) == 0 {
+			b := make([]byte, r.Intn(64))
+			r.Read(b)
+			return "raw:" + hex.EncodeToString(b)
+		}
+		return bodyClasses[r.Intn(len(bodyClasses))]
+	}
+	for i := 0; i < mul(200, 4000); i++ {
+		e := exprs[r.Intn(len(exprs))]
+		out = append(out, fmt.Sprintf("k=xpath expr=%s kind=%s body=%s", e, exprKind[e], randBody()))
+		out = append(out, fmt.Sprintf("k=jsonpath path=%s body=%s", []string{"result", "item0", "missing", "ab", "items"}[r.Intn(5)], randBody()))
+	}
+	// 5. engine runs: plain http guns x behaviours
+	for i := 0; i < mul(12, 150); i++ {
+		gun := []string{"http", "connect"}[r.Intn(2)]
+		var reqs []string
+		for j := 1 + r.Intn(6); j > 0; j-- {
+			s := randScript(r)
+			reqs = append(reqs, s+":"+truthOf(s))
+		}
+		out = append(out, fmt.Sprintf("k=run gun=%s tgt=live inst=%d m=%d reqs=%s", gun, []int{1, 2, 4}[r.Intn(3)], 1+r.Intn(3), strings.Join(reqs, ",")))
+	}
+	out = append(out, "k=run gun=http tgt=dead inst=2 m=3 reqs=s200:f,s404:f", "k=run gun=connect tgt=dead inst=1 m=2 reqs=s200:f")
+	out = append(out, "k=run gun=http tgt=live inst=2 m=1 rht=1000 reqs=acthang:f,acthang:f")
+	// huge bodies and headers
+	out = append(out, fmt.Sprintf("k=run gun=http tgt=live inst=2 m=1 reqs=s200.bx%d:r200,s500.bx%d.vX-Big~%d:r500", mul(2<<20, 16<<20), 1<<20, 200000))
+	// http2 gun: HTTP/2 target (fine) and a TLS target without HTTP/2 (the documented fatal condition)
+	out = append(out, "k=run gun=http2 tgt=tls2 inst=2 m=2 reqs=s200.bx5:r200,s503.bjson:r503,s404:r404,s200.bx40.actmidclose:rb200")
+	out = append(out, "k=run gun=http2 tgt=tls1 inst=1 m=1 reqs=s200.bx5:r200")
+	out = append(out, "k=run gun=http2 tgt=dead inst=1 m=2 reqs=s200:f")
+	// 6. engine runs: http scenarios x postprocessors x behaviours
+	for i := 0; i < mul(60, 900); i++ {
+		k := 1 + r.Intn(3)
+		var steps []string
+		for j := 0; j < k; j++ {
+			s := randScript(r)
+			var pps []string
+			for q := r.Intn(3); q > 0; q-- {
+				pps = append(pps, randPP(r))
+			}
+			if r.Intn(25) == 0 {
+				pps = append(pps, "tpl")
+			}
+			pp := "-"
+			if len(pps) > 0 {
+				pp = strings.Join(pps, "+")
+			}
+			steps = append(steps, fmt.Sprintf("st%d,%s,%s,%s", j, s, truthOf(s), pp))
+		}
+		out = append(out, fmt.Sprintf("k=run gun=http/scenario tgt=live inst=%d n=%d steps=%s", []int{1, 1, 2, 3}[r.Intn(4)], 1+r.Intn(4), strings.Join(steps, ";")))
+	}
+	out = append(out, "k=run gun=http/scenario tgt=dead inst=2 n=3 steps=st0,s200,f,H~X-Val~s1:5")
+	out = append(out, "k=run gun=http/scenario tgt=live inst=1 n=2 rht=1000 steps=st0,acthang,f,-")
+	out = append(out, fmt.Sprintf("k=run gun=http/scenario tgt=live inst=1 n=2 steps=st0,s200.bx%d,r200,A~200~%s~-~gt:1000+X~divdata+J~result", mul(1<<20, 8<<20), hx("xxx")))
+	// 7. engine runs: gRPC guns
+	for i := 0; i < mul(6, 60); i++ {
+		var reqs []string
+		for j := 1 + r.Intn(6); j > 0; j-- {
+			reqs = append(reqs, []string{"ok:0", "ok:0", "nomethod:0", "badpayload:0", fmt.Sprintf("code:%d", 1+r.Intn(20))}[r.Intn(5)])
+		}
+		out = append(out, fmt.Sprintf("k=run gun=grpc tgt=grpc inst=%d m=%d reqs=%s", []int{1, 2, 4}[r.Intn(3)], 1+r.Intn(3), strings.Join(reqs, ",")))
+	}
+	out = append(out, "k=run gun=grpc tgt=grpc inst=1 m=1 to=600 reqs=hang:0,ok:0")
+	out = append(out, "k=run gun=grpc tgt=grpc inst=2 m=4 stopafter=3 reqs=ok:0,ok:0")
+	for i := 0; i < mul(8, 100); i++ {
+		k := 1 + r.Intn(3)
+		var calls []string
+		for j := 0; j < k; j++ {
+			kind := []string{"ok", "ok", "code", "nomethod", "badpayload"}[r.Intn(5)]
+			pp := "-"
+			switch r.Intn(4) {
+			case 0:
+				pp = fmt.Sprintf("as%d", []int{200, 404, 500}[r.Intn(3)])
+			case 1:
+				pp = fmt.Sprintf("as%d:%s", []int{200, 0}[r.Intn(2)], hx([]string{"Hello", "zzz"}[r.Intn(2)]))
+			}
+			calls = append(calls, fmt.Sprintf("tg%d,%s,%d,%s", j, kind, 1+r.Intn(17), pp))
+		}
+		out = append(out, fmt.Sprintf("k=run gun=grpc/scenario tgt=grpc inst=%d n=%d calls=%s", []int{1, 2}[r.Intn(2)], 1+r.Intn(3), strings.Join(calls, ";")))
+	}
+	return out
+}
+
+func class(input, obs string) string {
+	m := drv.KV(input)
+	c := m["k"]
+	if m["k"] == "run" {
+		c += ":" + m["gun"] + ":" + m["tgt"]
+		if strings.Contains(input, "~s1:") || strings.Contains(input, "~s2:") || strings.Contains(input, "/s1:") || strings.Contains(input, "/s2:") {
+			c += ":substr"
+		}
+	}
+	if strings.Contains(obs, "res=panic") || strings.HasPrefix(obs, "PANIC") {
+		c += ":PANIC"
+	}
+	return c
+}
+
 func main() {
-	t := shot.NewTarget()
-	defer t.Close()
-	hcl := fmt.Sprintf(`
-request "r1" {
-  method = "GET"
-  uri    = "/a/b"
-  headers = {
-    X-Script = "s200.bjson.hX-Val~%s"
-  }
-  postprocessor "var/header" {
-    mapping = {
-      v = "X-Val|substr(5)"
-    }
-  }
-}
-request "r2" {
-  method = "GET"
-  uri    = "/c"
-  headers = {
-    X-Script = "s404.bhtml"
-  }
-  postprocessor "var/xpath" {
-    mapping = {
-      v = "//a"
-    }
-  }
-}
-scenario "scn" {
-  requests = ["r1", "r2"]
-}
-`, hex.EncodeToString([]byte("abc")))
-	f := shot.TempFile(".hcl", hcl)
-	conf := fmt.Sprintf(`
-pools:
-  - id: p
-    ammo: {type: http/scenario, file: %s}
-    result: {type: discard}
-    gun: {type: http/scenario, target: "%s"}
-    rps: [{type: once, times: 3}]
-    startup: [{type: once, times: 1}]
-`, f, t.Addr)
-	r := shot.RunEngine(conf, 10*time.Second)
-	fmt.Printf("%+v\n", r)
+	drv.Main(&drv.Prop{
+		ID:      "C19",
+		Gen:     gen,
+		Run:     run,
+		Class:   class,
+		Workers: 4,
+		Timeout: 120 * time.Second,
+		Rule: "the real engine with every gun kind (http, connect, http2, http/scenario, grpc, grpc/scenario) against scripted misbehaving targets " +
+			"(any status, empty/multi-MB/truncated bodies, malformed heads, invalid JSON/HTML, short header values, early close, reset, refusal, silence) " +
+			"with random lists of all postprocessor kinds; plus direct differential of the modifier / assertion / extractor functions on random " +
+			"values and arguments (negative, swapped, beyond-length, 64-bit extreme substr indices); non-trivial = at least one response processed",
+	})
 }
